@@ -225,4 +225,30 @@ PROPS = {
         "min_counters": {"c17.snapshots-compared": 20000, "c17.marker-set": 20, "c17.twin-histories": 500,
                          "c17.twin-inserted-rejections": 5000},
     },
+    "C03": {
+        "title": "Untrusted bytes never crash the decoder, the client or the reassembler",
+        "profiles": ["dev", "release"],
+        "thorough_profiles": ["asan", "miri"],
+        "scale": {"asan": 0.25, "miri": 0.0004},
+        "crash_is_violation": True,
+        "cpu_stall_limit": 60,
+        "rule": ("structure-aware mutation (bit flips, byte sets, truncation at every offset, extension, header / attribute / "
+                 "nested length edits, injection of 2/3/4-byte UTF-8, overlong and invalid sequences, quotes, CR/LF/HTAB/NUL into "
+                 "attribute values, value resizing, attribute type changes, duplicated / deleted / spliced attributes) of "
+                 "reference-built messages and RFC vectors, plus random bytes up to 64 KiB. (a) every input decoded under all "
+                 "16 option combinations + context-less: no panic (hook), post-conditions size == 20+length <= input, same "
+                 "result for the first `size` bytes alone and with other trailing bytes; get_input_text on the same bytes. "
+                 "(b) clients of every mechanism x fingerprint x transport driven <= 6 operations, then hostile messages "
+                 "re-addressed to an outstanding transaction and re-signed (FINGERPRINT / MAC recomputed when the state has a "
+                 "key), hostile 401/438 challenges with server-chosen strings straddling fixed offsets; afterwards the client "
+                 "must still accept send_request / on_timeout / events and keep one timer entry per outstanding request. "
+                 "(c) mutated streams in random chunkings into StunPacketDecoder with buffers around the packet size. Aborts "
+                 "and > 60 s CPU without progress are attributed to the current case by the supervisor. Distinct = hash of "
+                 "the hostile bytes."),
+        "assumptions": ["termination is restated as bounded progress: > 60 s of process CPU time inside one case is a violation"],
+        "min_counters": {"decode.ok": 20000, "decode.err": 100000, "client.hostile-deliveries": 20000,
+                         "client.hostile-accepted": 1000, "client.usability-probes": 10000, "reassembler.streams": 5000,
+                         "client.state.lt-after-401": 500, "client.state.lt-authenticated": 500, "client.state.lt-after-438": 500,
+                         "client.state.st-unlearned": 200, "client.state.st-learned": 200},
+    },
 }
